@@ -171,11 +171,8 @@ func randomUpdate(r *lib.Rng, pool []Op) Op {
 		return Op{Op: "U", Tag: genericTags[r.Intn(len(genericTags))], Val: genericValue(r)}
 	case x < 17:
 		return Op{Op: "U", Tag: nosaveTags[r.Intn(len(nosaveTags))], Val: genericValue(r)}
-	case x < 19:
-		return Op{Op: "U", Tag: oddTags[r.Intn(len(oddTags))], Val: genericValue(r)}
 	default:
-		// a typed tag carrying a value of another shape (clients cannot do this, the model does not care)
-		return Op{Op: "U", Tag: typedTags[r.Intn(len(typedTags))], Val: raw(word(r) + "x")}
+		return Op{Op: "U", Tag: oddTags[r.Intn(len(oddTags))], Val: genericValue(r)}
 	}
 }
 
